@@ -36,7 +36,7 @@ func init() {
 		MinNontrivial:  map[string]int{"quick": 20000, "thorough": 100000},
 		RequiredObs: []string{
 			"CoeffUint64:exact", "CoeffUint64:panic_allowed", "Coeff:exact", "Coeff:panic_allowed", "Coeffs:rows_checked",
-			"Unrank:exact", "Rank:exact", "Rank:panic_allowed", "colex:positions_checked", "Unrank:risky_range_calls", "thresholds:groups", "Rank:boundary_cases_above_MaxInt",
+			"Unrank:exact", "Rank:exact", "Rank:panic_allowed", "colex:positions_checked", "Unrank:risky_range_calls", "thresholds:groups", "Rank:boundary_cases_above_MaxInt", "Unrank:longloop_rank_above_2^53", "Unrank:constructed_from_combination",
 		},
 	})
 }
@@ -618,6 +618,10 @@ func run(c *engine.Ctx) {
 	// 8. Unrank around the C(l,k) boundaries on a ladder of l up to MaxInt
 	boundaryUnits(c, m)
 
+	// 8a. long walks and the regimes where a floating-point closed form would go wrong
+	longLoopUnits(c, m)
+	denseBoundaryUnits(c, m)
+
 	// 8b. Rank around the int boundary: the combinations whose rank is MaxInt-3 .. MaxInt+3 and the
 	// last ones with the same largest element (every term may fit while the sum does not)
 	c.Unit("rank/boundary", func() {
@@ -1020,5 +1024,173 @@ func seededRank(c *engine.Ctx, m *mon) {
 				}
 			}
 		})
+	}
+}
+
+// longLoopUnits: k = 1, 2 with ranks far beyond the 10^7-step bound of the
+// other workloads.  The loop of Unrank is linear (k = 1) / sqrt (k = 2) in the
+// rank by design, about 5 ns per step: a rank just below C(l,2) costs 2l steps.
+// These are the ranks where a closed form through float64 (l = (1+sqrt(8m+1))/2
+// without an integer correction) is off by one: 8m+1 needs more than 53 bits
+// from l = 2^27+1 = sqrt(2^53)*sqrt(2) on, and 94906267 = ceil(sqrt(2^53)).
+// Every call is a unit of its own: a budget kill loses nothing else and the
+// calls spread over the shards.
+func longLoopUnits(c *engine.Ctx, m *mon) {
+	type lc struct {
+		l  uint64
+		ds []int64
+	}
+	all := []int64{-2, -1, 0, 1}
+	ls := []lc{{1<<20 + 1, all}, {1<<24 + 1, all}, {1<<26 + 1, all}, {1<<26 + 3, all}, {94906266, all}, {94906267, all}, {1<<27 - 1, all}, {1<<27 + 1, all}, {1<<27 + 12345, []int64{-1}}}
+	stepLimit := int64(300000000)
+	if c.Thorough() {
+		stepLimit = 2300000000 // ~15 CPU-s, half the budget of a call
+		ls = append(ls, lc{1<<28 - 1, all}, lc{1<<28 + 1, all}, lc{1<<29 + 1, all}, lc{379625062, all}, lc{1<<30 + 1, all},
+			// beyond: C(l,2)-1 would need 2l > 4*10^9 steps; Unrank(MaxInt, 2) = [2^31-1, 2^32] needs 6.4*10^9 steps (> 30 CPU-s): not run
+			lc{1<<31 + 1, []int64{0, 1}})
+	}
+	type one struct {
+		r      *big.Int
+		k      int
+		seeded int // index of a seeded case, -1 for the fixed part
+	}
+	var cases []one
+	for _, x := range ls {
+		b := bigcomb.Binomial(x.l, 2)
+		for _, d := range x.ds {
+			cases = append(cases, one{new(big.Int).Add(b, big.NewInt(d)), 2, -1})
+		}
+	}
+	// seeded: just below a triangular number, l between 2^26.5 and 2^27.5 (thorough: up to 2^29)
+	ns := c.Pick(2, 8)
+	for i := 0; i < ns; i++ {
+		rg := c.Rand("longloop", i)
+		lo, hi := 94906267, 189812531
+		if c.Thorough() && i >= 2 {
+			hi = 1 << 29
+		}
+		l := uint64(rg.Range(lo, hi))
+		cases = append(cases, one{new(big.Int).Sub(bigcomb.Binomial(l, 2), big.NewInt(int64(1+rg.Intn(3)))), 2, i})
+	}
+	// k = 1: linear loop
+	cases = append(cases, one{big.NewInt(1<<27 + 1), 1, -1})
+	if c.Thorough() {
+		cases = append(cases, one{big.NewInt(1<<28 + 3), 1, -1})
+	}
+	for _, x := range cases {
+		x := x
+		name := fmt.Sprintf("unrank/longloop/k=%d/r=%v", x.k, x.r)
+		if x.seeded >= 0 {
+			name = fmt.Sprintf("unrank/longloop/k=%d/seeded-%d", x.k, x.seeded)
+		}
+		c.Unit(name, func() {
+			w := bigcomb.UnrankBig(x.r, x.k)
+			if !stepsOK(w, stepLimit) {
+				c.Obs("Unrank:longloop_skipped_too_slow", 1)
+				return
+			}
+			c.Obs("Unrank:longloop_calls", 1)
+			c.ObsMax("Unrank:longloop_steps", int(bigcomb.Steps(w).Int64()))
+			if x.r.BitLen() > 53 {
+				c.Obs("Unrank:longloop_rank_above_2^53", 1)
+			}
+			m.runUnranks([]urCase{{r: int(x.r.Int64()), k: x.k, want: w, rt: true}})
+		})
+	}
+}
+
+// denseBoundaryUnits: for k = 3..6 the ranks C(l,k)-2 .. C(l,k)+1 for many l
+// between the point where k!*m leaves the 53 bits of a float64 (where a k-th
+// root estimate of l stops being exact: l ~ 208064 for k = 3) and the largest
+// l with C(l,k) <= MaxInt (3810778 for k = 3), for powers of two +- 1 and for
+// seeded l; and, constructed from the combination side, the combinations with
+// the largest possible remaining rank below the top element ([.., b-1, b, top]).
+// All of them are cheap: the loop is about l steps.
+func denseBoundaryUnits(c *engine.Ctx, m *mon) {
+	for k := 3; k <= 6; k++ {
+		for part := 0; part < 2; part++ {
+			k, part := k, part
+			c.Unit(fmt.Sprintf("unrank/dense-boundary/k=%d/%d", k, part), func() {
+				L := largestL(uint64(k), bigMaxI)
+				// smallest l with k! * C(l,k) > 2^53
+				fact := big.NewInt(1)
+				for i := 2; i <= k; i++ {
+					fact.Mul(fact, big.NewInt(int64(i)))
+				}
+				lim := new(big.Int).Quo(new(big.Int).Lsh(big.NewInt(1), 53), fact)
+				f := largestL(uint64(k), lim) + 1
+				var ls []uint64
+				if part == 0 {
+					for d := uint64(0); d < 6; d++ {
+						ls = append(ls, f-3+d, L-d)
+					}
+					for p := uint64(8); p < L; p *= 2 {
+						if p > uint64(k)+2 {
+							ls = append(ls, p-1, p, p+1)
+						}
+					}
+				} else {
+					rg := c.Rand("dense-boundary", k)
+					n := c.Pick(40, 300)
+					if k == 3 {
+						n = c.Pick(24, 200)
+					}
+					for i := 0; i < n; i++ {
+						// log-uniform between f/2 and L
+						lo := float64(f) / 2
+						x := lo
+						for r := rg.Float() * 40; r > 0 && x < float64(L); r-- {
+							x *= 1.0 + 0.1*rg.Float()
+						}
+						l := uint64(x)
+						if l > L {
+							l = L - uint64(rg.Intn(1000))
+						}
+						ls = append(ls, l)
+					}
+				}
+				var cases []urCase
+				seen := map[string]bool{}
+				add := func(r *big.Int) {
+					if r.Sign() < 0 || r.Cmp(bigMaxI) > 0 || seen[r.String()] {
+						return
+					}
+					seen[r.String()] = true
+					cases = append(cases, urCase{r: int(r.Int64()), k: k, rt: true})
+				}
+				for _, l := range ls {
+					if l < uint64(k) || l > L+1 {
+						continue
+					}
+					b := bigcomb.Binomial(l, uint64(k))
+					for d := int64(-2); d <= 1; d++ {
+						add(new(big.Int).Add(b, big.NewInt(d)))
+					}
+					// from the combination side: top element l-1, the two lowest positions b-1, b just
+					// below the third position (largest remaining rank at position 1), 0/1 and the middle
+					if part == 0 && l > uint64(k)+4 {
+						top := make([]uint64, k)
+						for i := 0; i < k; i++ {
+							top[i] = l - uint64(k) + uint64(i) // [l-k .. l-1]: rank C(l,k)-1
+						}
+						for _, low := range [][2]uint64{{0, 1}, {top[2] - 2, top[2] - 1}, {top[2] / 2, top[2]/2 + 1}, {0, top[2] - 1}} {
+							cc := append([]uint64(nil), top...)
+							cc[0], cc[1] = low[0], low[1]
+							r := bigcomb.RankBig(cc)
+							if r.Cmp(bigMaxI) <= 0 && !seen[r.String()] {
+								seen[r.String()] = true
+								cases = append(cases, urCase{r: int(r.Int64()), k: k, want: cc, rt: true})
+								c.Obs("Unrank:constructed_from_combination", 1)
+							}
+						}
+					}
+				}
+				c.Obs("Unrank:dense_boundary_l_values", len(ls))
+				m.runUnranks(cases)
+				if part == 0 {
+					c.Sample("dense boundary", map[string]interface{}{"k": k, "float_regime_from_l": f, "largest_l": L, "cases": len(cases)})
+				}
+			})
+		}
 	}
 }
